@@ -316,11 +316,94 @@ func factF7(fset *token.FileSet) {
 	}
 }
 
+// F8: the link-level reply goes to the client's hardware address and the offered address,
+// server port -> client port, on the interface it was given
+func factF8(fset *token.FileSet) {
+	f := parseFile(fset, "server/sendEthernet.go")
+	fd := findFunc(f, "", "sendEthernet")
+	if fd == nil {
+		fail("sendEthernet.go: sendEthernet not found")
+	}
+	s := strings.Join(strings.Fields(exprStr(fset, fd.Body)), " ")
+	for _, w := range []string{"DstMAC: resp.ClientHWAddr", "DstIP: resp.YourIPAddr", "SrcPort: dhcpv4.ServerPort", "DstPort: dhcpv4.ClientPort",
+		"Ifindex: iface.Index", "gopacket.NewPacket(resp.ToBytes(), layers.LayerTypeDHCPv4"} {
+		if !strings.Contains(s, w) {
+			fail("sendEthernet: %q not found", w)
+		}
+	}
+	// and HandleMsg4 hands it the interface of the control message and the response
+	h := parseFile(fset, "server/handle.go")
+	hs := strings.Join(strings.Fields(exprStr(fset, h)), " ")
+	for _, w := range []string{"net.InterfaceByIndex(woob.IfIndex)", "sendEthernet(*intf, resp)"} {
+		if !strings.Contains(hs, w) {
+			fail("HandleMsg4: %q not found", w)
+		}
+	}
+}
+
+// F9: the server binary registers each built-in plugin exactly once, under distinct names
+func factF9(fset *token.FileSet) {
+	f := parseFile(fset, "cmds/coredhcp/main.go")
+	var regs []string
+	ast.Inspect(f, func(x ast.Node) bool {
+		if vs, ok := x.(*ast.ValueSpec); ok && len(vs.Names) == 1 && vs.Names[0].Name == "desiredPlugins" && len(vs.Values) == 1 {
+			if cl, ok := vs.Values[0].(*ast.CompositeLit); ok {
+				for _, e := range cl.Elts {
+					regs = append(regs, exprStr(fset, e))
+				}
+			}
+		}
+		return true
+	})
+	if len(regs) < 15 {
+		fail("main.go: desiredPlugins has %d entries, want at least 15", len(regs))
+	}
+	seen := map[string]bool{}
+	for _, r := range regs {
+		if seen[r] {
+			fail("main.go: plugin %s registered twice", r)
+		}
+		seen[r] = true
+	}
+	if !strings.Contains(exprStr(fset, f), "plugins.RegisterPlugin(plugin)") {
+		fail("main.go: plugins are not registered with plugins.RegisterPlugin")
+	}
+	// distinct Name: literals across plugin packages
+	names := map[string]string{}
+	filepath.Walk(filepath.Join(repoRoot, "plugins"), func(p string, info os.FileInfo, err error) error {
+		if err != nil || info.IsDir() || !strings.HasSuffix(p, ".go") || strings.HasSuffix(p, "_test.go") || strings.Contains(p, "/example/") {
+			return nil
+		}
+		af, perr := parser.ParseFile(fset, p, nil, 0)
+		if perr != nil {
+			return nil
+		}
+		ast.Inspect(af, func(x ast.Node) bool {
+			if cl, ok := x.(*ast.CompositeLit); ok && exprStr(fset, cl.Type) == "plugins.Plugin" {
+				for _, e := range cl.Elts {
+					if kv, ok := e.(*ast.KeyValueExpr); ok && exprStr(fset, kv.Key) == "Name" {
+						n := exprStr(fset, kv.Value)
+						if prev, dup := names[n]; dup && n != "pluginName" {
+							fail("plugin name %s used by %s and %s", n, prev, p)
+						}
+						names[n] = p
+					}
+				}
+			}
+			return true
+		})
+		return nil
+	})
+	if len(names) < 15 {
+		fail("only %d plugin declarations found", len(names))
+	}
+}
+
 func runFacts(args []string) {
 	fs := flag.NewFlagSet("facts", flag.ExitOnError)
 	which := fs.String("fact", "", "F1..F7")
 	fs.Parse(args)
-	table := map[string]func(*token.FileSet){"F1": factF1, "F2": factF2, "F3": factF3, "F4": factF4, "F5": factF5, "F6": factF6, "F7": factF7}
+	table := map[string]func(*token.FileSet){"F1": factF1, "F2": factF2, "F3": factF3, "F4": factF4, "F5": factF5, "F6": factF6, "F7": factF7, "F8": factF8, "F9": factF9}
 	fn, ok := table[*which]
 	if !ok {
 		fmt.Println("FACT", *which, "unknown")
